@@ -287,7 +287,8 @@ func H_R1_CreditBoundsClaims() {
 	vrf.Assume(amt.IsPositive())
 	env.W.SetBal(mcAddr, usdc, amt) // exactly what was collected for this credit
 	env.Mc.UpdateAccPerShare(ctx, 1, usdc, amt)
-	errA := env.Mc.ClaimRewards(ctx, alice, []uint64{1}, alice)
+	// (alice names the pool twice in her claim: it is paid once)
+	errA := env.Mc.ClaimRewards(ctx, alice, []uint64{1, 1}, alice)
 	errB := env.Mc.ClaimRewards(ctx, bob, []uint64{1}, bob)
 	vrf.Assert(errA == nil, "C13-R1: first claim succeeds")
 	vrf.Assert(errB == nil, "C13-R1: second claim succeeds whatever the order")
